@@ -250,8 +250,9 @@ def star_before_keyword_walrus(tree):
 
 
 def dead_code_positions(tree):
-    """positions (line, col) of every Name/def/class/handler binding located in statements that follow a return / raise /
-    break / continue in the same block: nothing there can execute, so a binding there reaches no read"""
+    """positions (line, col) of every Name/def/class/handler binding located in statements that follow, in the same block, a
+    return / raise / break / continue or a compound statement every path of which ends in one (if/else whose arms all leave, a
+    loop without break whose else clause leaves, ...): nothing there can execute, so a binding there reaches no read"""
     out = set()
 
     def mark(stmts):
@@ -264,12 +265,29 @@ def dead_code_positions(tree):
                 elif isinstance(n, ast.alias):
                     out.add(('line', n.lineno))
 
+    def leaves(stmts):
+        """every path through the statement list ends in return / raise / break / continue (syntactically certain cases only)"""
+        for st_ in stmts:
+            if isinstance(st_, (ast.Return, ast.Raise, ast.Break, ast.Continue)):
+                return True
+            if isinstance(st_, ast.If) and st_.orelse and leaves(st_.body) and leaves(st_.orelse):
+                return True
+            if isinstance(st_, (ast.While, ast.For)) and st_.orelse and leaves(st_.orelse) \
+                    and not any(isinstance(n, ast.Break) for n in ast.walk(st_)):
+                return True         # left only by exhaustion, and then the else clause leaves
+            if isinstance(st_, ast.With) and leaves(st_.body):
+                return True
+            if isinstance(st_, ast.Try) and ((st_.finalbody and leaves(st_.finalbody))
+                                             or (leaves(st_.body + st_.orelse) and all(leaves(h.body) for h in st_.handlers))):
+                return True
+        return False
+
     for node in ast.walk(tree):
         for field in ('body', 'orelse', 'finalbody'):
             stmts = getattr(node, field, None)
             if isinstance(stmts, list) and stmts and isinstance(stmts[0], ast.stmt):
                 for i, st_ in enumerate(stmts):
-                    if isinstance(st_, (ast.Return, ast.Raise, ast.Break, ast.Continue)):
+                    if leaves([st_]):
                         mark(stmts[i + 1:])
                         break
     return out
